@@ -384,51 +384,111 @@ def r17_7_layouts(rep, facts):
             rep.violation("R17.7", "layout[%s]" % struct, "layout mismatch: encoder %s, decoder %s, specification %s" % (enc, dec, want), eb.loc())
 
 
+def _mod8(e, r, pname):
+    """Congruence-domain value of expression e when the content length is congruent to r modulo 8: ('val', k) = exactly k (a small
+    non-negative integer), ('res', k) = some integer congruent to k modulo 8, None = not expressible.  Sound for the wrapping and the
+    exact machine arithmetic alike, because 8 divides every power of two the integer types wrap at."""
+    e = ir.peel(e, casts=True)
+    k = e[0]
+    c = ir.const_value(e)
+    if isinstance(c, int) and not isinstance(c, bool):
+        return ('val', c) if 0 <= c < 1 << 20 else ('res', c % 8)
+    if k == 'param':
+        return ('res', r) if e[2] == pname else None
+    if k == 'cast':
+        return _mod8(e[1], r, pname)
+    if k == 'field' and ir.peel(e[1])[0] == 'bin':
+        return _mod8(e[1], r, pname)          # `.0` of a checked operation's (value, overflowed) pair
+    if k == 'bin':
+        op = e[1].replace("WithOverflow", "").replace("Unchecked", "")
+        a, b = _mod8(e[2], r, pname), _mod8(e[3], r, pname)
+        if a is None or b is None:
+            return None
+        if op == 'Rem' and b == ('val', 8):
+            return ('val', a[1] % 8)
+        if op == 'BitAnd' and (b == ('val', 7) or a == ('val', 7)):
+            return ('val', (a[1] if b == ('val', 7) else b[1]) % 8)
+        if op in ('Add', 'Sub', 'Mul'):
+            v = a[1] + b[1] if op == 'Add' else a[1] - b[1] if op == 'Sub' else a[1] * b[1]
+            if a[0] == 'val' and b[0] == 'val':
+                return ('val', v) if v >= 0 else None
+            return ('res', v % 8)
+        return None
+    if k == 'call' and e[2]:
+        short = e[1].split("::")[-1]
+        args = [_mod8(a, r, pname) for a in e[2]]
+        if any(a is None for a in args):
+            return None
+        if short == 'wrapping_neg' and len(args) == 1:
+            return ('res', (-args[0][1]) % 8)
+        if short in ('wrapping_add', 'wrapping_sub', 'wrapping_mul') and len(args) == 2:
+            v = args[0][1] + args[1][1] if short.endswith('add') else args[0][1] - args[1][1] if short.endswith('sub') else args[0][1] * args[1][1]
+            return ('res', v % 8)
+        if short in ('from', 'into') and len(args) == 1:
+            return args[0]
+    return None
+
+
 def r17_6_set_lengths(rep, facts):
+    """Decided in the congruence domain modulo 8 (eight residue classes of the content length): on every path that is feasible for the
+    class, the stored padding is exactly (8 - r) % 8 -- whatever formula computes it (branch on r, `8 - r`, `wrapping_neg() % 8`, a mask)."""
     b, g, rows = table(facts, "protocol::RecordHeader::set_lengths")
     rows = [r for r in rows if r.end == 'return']
-    seen = set()
-    ok = True
-    detail = []
+    pname = None
+    bad = []
     for r in rows:
-        conds = nonconst_conds(r)
-        w = {pl[2]: ir.peel(val, casts=True) for (pl, val, n, st) in r.writes if pl[0] == 'field'}
-        cl = w.get("content_length")
-        pad = w.get("padding_length")
-        if cl is None or cl[0] != 'param' or pad is None or len(conds) != 1:
-            ok = False
+        w = {pl[2]: val for (pl, val, n, st) in r.writes if pl[0] == 'field'}
+        cl = ir.peel(w.get("content_length"), casts=True) if w.get("content_length") is not None else None
+        if cl is None or cl[0] != 'param' or "padding_length" not in w:
+            bad.append("a return path does not store the argument as content_length and a padding_length")
             continue
-        ce, lab = conds[0]
-        zt = None
-        from .common import zero_test
-        dty = next((n_.term.get("dty") for (e_, l_, n_) in r.conds if e_ is ce), None)
-        zt = zero_test(ce, dty)
-        if zt is None:
-            ok = False
-            continue
-        v, c0, other = zt
-        rem = ir.peel(v)
-        is_rem = rem[0] == 'bin' and rem[1] == 'Rem' and ir.peel(rem[2]) == cl and ir.const_value(rem[3]) == 8
-        verdict = c0 if lab == ('case', 0) else other
-        if not is_rem:
-            ok = False
-            continue
-        seen.add(verdict)
-        if verdict == 'zero':
-            # padding = remainder (= 0), or the literal 0
-            good = ir.peel(pad) == rem or ir.const_value(pad) == 0
-            detail.append("r == 0 => padding r (0)")
-        else:
-            p = pad
-            if p[0] == 'field' and p[1][0] == 'bin':
-                p = p[1]
-            good = p[0] == 'bin' and p[1].startswith('Sub') and ir.const_value(p[2]) == 8 and ir.peel(p[3]) == rem
-            detail.append("r > 0 => padding 8 - r")
-        ok = ok and good
-    if ok and seen == {'zero', 'nonzero'}:
-        rep.ok("R17.6", "set_lengths", "content_length <- argument; with r = content_length %% 8: %s; hence padding < 8 and content+padding is a multiple of 8" % "; ".join(sorted(detail)), b.loc())
+        pname = cl[2]
+    n_checked = 0
+    if not bad and pname is not None:
+        for res in range(8):
+            feasible = 0
+            for r in rows:
+                ok_path = True
+                for (e, lab) in nonconst_conds(r):
+                    pe = ir.peel(e, casts=True)
+                    truth = None
+                    if pe[0] == 'bin' and pe[1] in ('Eq', 'Ne', 'Lt', 'Le', 'Gt', 'Ge'):
+                        a, c = _mod8(pe[2], res, pname), _mod8(pe[3], res, pname)
+                        if a and c and a[0] == 'val' and c[0] == 'val':
+                            truth = {'Eq': a[1] == c[1], 'Ne': a[1] != c[1], 'Lt': a[1] < c[1], 'Le': a[1] <= c[1], 'Gt': a[1] > c[1], 'Ge': a[1] >= c[1]}[pe[1]]
+                            taken = (lab[1] != 0) if lab[0] == 'case' else (True if lab[0] == 'otherwise' and 0 in lab[1] else None)
+                    else:
+                        a = _mod8(pe, res, pname)
+                        if a and a[0] == 'val' and isinstance(lab, tuple):
+                            # switchInt directly on a small value (e.g. `match content_length % 8 { 0 => .., n => .. }`)
+                            truth = True
+                            taken = (lab[1] == a[1]) if lab[0] == 'case' else (a[1] not in lab[1])
+                    if truth is None:
+                        continue            # a test the domain cannot evaluate: the path stays possible
+                    if taken is not None and taken != truth:
+                        ok_path = False
+                        break
+                if not ok_path:
+                    continue
+                feasible += 1
+                w = {pl[2]: val for (pl, val, n, st) in r.writes if pl[0] == 'field'}
+                v = _mod8(w["padding_length"], res, pname)
+                want = (8 - res) % 8
+                if v is None:
+                    bad.append("the padding stored for content_length = %d (mod 8) is not expressible modulo 8: %s" % (res, ir.show(w["padding_length"])[:70]))
+                elif v[0] != 'val':
+                    bad.append("the padding stored for content_length = %d (mod 8) is only known modulo 8 (it may be 8 or more)" % res)
+                elif v[1] != want:
+                    bad.append("content_length = %d (mod 8) gets padding %d, expected %d" % (res, v[1], want))
+                else:
+                    n_checked += 1
+            if not feasible:
+                bad.append("no return path is feasible for content_length = %d (mod 8)" % res)
+    if not bad and n_checked >= 8:
+        rep.ok("R17.6", "set_lengths", "content_length <- argument; for each residue r = content_length %% 8 every feasible path stores padding (8 - r) %% 8 "
+               "(congruence domain modulo 8, %d path/class pairs); hence padding < 8 and content+padding is a multiple of 8" % n_checked, b.loc())
     else:
-        rep.violation("R17.6", "set_lengths", "padding rule is not {r == 0 => 0, r > 0 => 8 - r} with r = content_length % 8", b.loc())
+        rep.violation("R17.6", "set_lengths", "padding rule is not {r == 0 => 0, r > 0 => 8 - r} with r = content_length %% 8: %s" % "; ".join(sorted(set(bad))[:3]), b.loc())
 
 
 def r17_8_version_first(rep, facts):
@@ -616,6 +676,15 @@ def r17_5_response(rep, facts):
                 if x[0] == 'call' and x[1].endswith("const_new"):
                     cv_ = ir.const_value(x[2][0]) if x[2] else None
                     srcs.add('const:%s' % (cv_.decode() if isinstance(cv_, bytes) else cv_))
+                elif isinstance(ir.const_value(x), bytes) and not any(y[0] == 'call' and y[1].endswith("const_new") for y in ir.walk(vals)):
+                    srcs.add('const:%s' % ir.const_value(x).decode("ascii", "replace"))     # a plain `"0"` literal
+                if x[0] == 'agg' and x[1] == 'closure':
+                    # a value computed lazily (`cache.get_or_insert_with(|| config.max_conns.to_compact_string())`): what the closure reads
+                    cb_ = facts.by_path.get(x[2])
+                    if cb_ is not None and any(el.get("n") == "max_conns" for blk_ in cb_.blocks for st_ in blk_["st"] if st_.get("k") == "assign"
+                                               for pl_ in ([st_["rv"].get("place")] if isinstance(st_["rv"].get("place"), dict) else [])
+                                               for el in pl_.get("p", [])):
+                        srcs.add('max_conns')
     if srcs == {'max_conns', 'const:0'}:
         rep.ok("R17.5", "write_response/values", "values are config.max_conns (both limits) or the constant \"0\" (multiplexing)", wloc)
     else:
